@@ -148,6 +148,31 @@ def run_mc(name, tier):
     return result
 
 
+def run_apalache():
+    """Inductive invariant of IndCount.tla (unbounded sizes) with Apalache. Cached by file hash."""
+    f = os.path.join(SPEC, "IndCount.tla")
+    key = sha([f])
+    cdir = os.path.join(WORK, "mc", "apalache-" + key)
+    res = os.path.join(cdir, "result.json")
+    if os.path.exists(res):
+        return json.load(open(res))
+    os.makedirs(cdir, exist_ok=True)
+    obligations = [("Init => IndInv", ["--init=Init", "--inv=IndInv", "--length=0"]),
+                   ("IndInv /\\ Next => IndInv'", ["--init=IndInit", "--inv=IndInv", "--length=1"])]
+    out = []
+    t0 = time.time()
+    for name, args in obligations:
+        cmd = ["timeout", "900", "apalache-mc", "check", "--cinit=CInit", "--out-dir=" + os.path.join(cdir, "out")] + args + ["IndCount.tla"]
+        r = subprocess.run(cmd, cwd=SPEC, stdout=subprocess.PIPE, stderr=subprocess.STDOUT, text=True)
+        ok = "The outcome is: NoError" in r.stdout
+        out.append(dict(obligation=name, ok=ok, cmd=" ".join(cmd[2:]), tail=r.stdout[-300:] if not ok else ""))
+    shutil.rmtree(os.path.join(cdir, "out"), ignore_errors=True)
+    result = dict(obligations=len(out), discharged=sum(1 for o in out if o["ok"]), details=out, wall_s=round(time.time() - t0, 1))
+    if result["discharged"] == result["obligations"]:
+        json.dump(result, open(res, "w"), indent=1)
+    return result
+
+
 # ---------------------------------------------------------------------------------------------
 def record_suite(suite, tier, seed, key):
     """Returns list of dict(path, status, suite, profile). Cached per (key, suite, tier, seed)."""
@@ -172,12 +197,17 @@ def record_suite(suite, tier, seed, key):
         # one file per chunk of runs so that validation parallelises and replay files stay small
         nruns = runs[ti]
         nev = events[ti]
-        chunk = 1 if mode == "big" else 6
+        chunk = 1 if mode == "big" else (100 if mode == "sim" else 6)
         jobs = []
         for c in range(0, nruns, chunk):
             p = os.path.join(cdir, "r%03d.ndjson" % c)
             sd = seed * 7919 + c * 104729 + (hash_name(suite) % 1000)
-            if mode == "big":
+            if mode == "sim":
+                script = p.replace(".ndjson", ".script.ndjson")
+                cmd = ["sh", "-c", "python3 %s --num %d --depth %d --seed %d --out %s && timeout 300 %s run --elem %s --script %s --out %s"
+                       % (os.path.join(VERIF, "tools", "simgen.py"), min(chunk, nruns - c), nev, sd % 100000, script,
+                          drive_bin(profile), elem, script, p)]
+            elif mode == "big":
                 cmd = ["timeout", "900", drive_bin(profile), "big", "--elem", elem, "--seed", str(sd), "--n", str(nev)] + flags + ["--out", p]
             elif mode == "diff":
                 pb = p.replace(".ndjson", ".rel.ndjson")
@@ -339,6 +369,14 @@ def run_check(pid, tier, seed, replay):
             print("TOOL-ERROR model checking %s did not complete cleanly: %s" % (name, r["violations"] or "timeout/error"))
             write_evidence(pid, tier, seed, mcs, [], [], [], notes + ["model checking failed: %s" % name], t0, 0, tool_error=True)
             return 2
+    proof = None
+    if plan.get("apalache"):
+        proof = run_apalache()
+        log("Apalache: %d/%d obligations discharged (%.0fs)" % (proof["discharged"], proof["obligations"], proof["wall_s"]))
+        if proof["discharged"] != proof["obligations"]:
+            print("TOOL-ERROR apalache did not discharge the inductive invariant: %s" % [d for d in proof["details"] if not d["ok"]])
+            return 2
+        notes.append("Apalache: IndCount.tla inductive invariant (headroom, capacity>=len, insert's assertion unreachable) for unbounded sizes: %d/%d obligations" % (proof["discharged"], proof["obligations"]))
     # ---- traces ----
     traces = []
     if replay:
@@ -452,12 +490,12 @@ def run_check(pid, tier, seed, replay):
         kinds = sorted(set(d["what"] for d in drift))
         print("SPEC-DRIFT: %d events not explained by the implementation-level spec (%s); exhaustive results may not transfer"
               % (len(drift), ",".join(kinds)))
-    write_evidence(pid, tier, seed, mcs, traces, violations, drift, notes, t0, nvalid, stats=stats)
+    write_evidence(pid, tier, seed, mcs, traces, violations, drift, notes, t0, nvalid, stats=stats, proof=proof)
     log("%s %s: %d traces, %d events, %d violations, %d drift, %.0fs" % (pid, tier, nvalid, stats["events"], len(violations), len(drift), time.time() - t0))
     return rc
 
 
-def write_evidence(pid, tier, seed, mcs, traces, violations, drift, notes, t0, nvalid, stats=None, tool_error=False):
+def write_evidence(pid, tier, seed, mcs, traces, violations, drift, notes, t0, nvalid, stats=None, tool_error=False, proof=None):
     stats = stats or dict(events=0, ops={}, split_states=set(), split_events=0, samples=[])
     states = sum(m["distinct"] for m in mcs)
     trans = sum(m["generated"] for m in mcs)
@@ -481,6 +519,11 @@ def write_evidence(pid, tier, seed, mcs, traces, violations, drift, notes, t0, n
         exhaustive=bool(mcs) and all(m["complete"] for m in mcs),
         notes=notes,
     )
+    if proof:
+        cov["obligations"] = proof["obligations"]
+        cov["discharged"] = proof["discharged"]
+        cov["checker_cmd"] = "; ".join(d["cmd"] for d in proof["details"])
+        cov["trusted_base"] = ["Apalache 0.58 / Z3", "lemma Cap(CapToBuckets(c)) >= c (TLC: MCCount!CapLemma; observed in every strict trace)"]
     level = PLAN.LEVEL.get(pid, "model_checking")
     if not mcs:
         # no exhaustive component yet: claim only what was done
